@@ -7,7 +7,7 @@ BASE_NOTE = ("Trusted: Lean kernel + Mathlib; tools/extract.py; the corresponden
 
 CLAIMS = {
  "C01": {
-  "text": "The Lean specification prover (Model/Prover.lean, rounds 1-5 as in prove_inner) and model verifier are executed next to the real code: for every constraint count around every power of two, SRS capacities exactly sufficient / one too small, all public-input placements and labels, the real proof must equal the model's proof byte for byte, both verifiers must accept, and the compressed and serialized key routes must give identical keys and proofs. Theorems: transcript order prover/verifier agreement, capacity arithmetic (C20 trim_enough), verifier algebra (C03).",
+  "text": "The Lean specification prover (Model/Prover.lean, rounds 1-5 as in prove_inner) and model verifier are executed next to the real code: for every constraint count around every power of two, SRS capacities exactly sufficient / one too small, all public-input placements and labels, the real proof must equal the model's proof byte for byte, both verifiers must accept, and the compressed and serialized key routes must give identical keys and proofs. 10 theorems: opening identity of the aggregated witness, capacity arithmetic of compile/trim (exact error condition), every committed polynomial fits the trimmed key, quotient shares recombine, transcript order prover/verifier agreement; verifier algebra in C03, quotient in C05.",
   "note": BASE_NOTE + "Partial: pairing in the trapdoor view; the end-to-end theorem 'model prover output is accepted by the model verifier' is checked executably on every case (spec=ok) and proved only in its algebraic parts; degenerate blinders excluded as the property allows.",
   "technique": TECH},
  "C02": {
@@ -15,19 +15,19 @@ CLAIMS = {
   "note": BASE_NOTE + "Partial by nature: soundness is computational (KZG knowledge soundness, AGM, Fiat-Shamir are assumptions); what is proved is the algebraic core with explicit bad-challenge sets.",
   "technique": TECH},
  "C03": {
-  "text": "Theorems about the model verifier: grouped MSM of Proof::verify / verify_legacy equals the textbook equation as a formal linear combination over any module; every linearisation scalar equals the widget identity; transcript operation list is injective in label, sizes, bound commitments, public inputs and proof elements; acceptance depends on nothing else. The model verifier recomputes Merlin/STROBE/Keccak challenges from bytes and must agree with the real verifier on every mutated proof (bit flips, field replacement, cross-circuit, splices).",
+  "text": "18 theorems about the model verifier: grouped MSM of Proof::verify / verify_legacy equals the textbook equation as a formal linear combination over any module; every linearisation scalar equals the widget identity; transcript operation list is injective in label, sizes, bound commitments, public inputs and proof elements; acceptance depends on nothing else. The model verifier recomputes Merlin/STROBE/Keccak challenges from bytes and must agree with the real verifier on every mutated proof (bit flips, field replacement, cross-circuit, splices).",
   "note": BASE_NOTE + "Pairing decided in the trapdoor view (bilinearity assumed); sponge treated as random oracle; G1/G2 arithmetic of dusk-bls12_381 re-implemented and compared, not proved.",
   "technique": TECH},
  "C04": {
-  "text": "Theorems: public-input length mismatch is rejected before anything else; changing any public input, label byte/length, bound key commitment, size or version flag changes the transcript operation list; version matrix of transcript/equation flags. Correspondence: every public-input mutation, near-miss circuit, label variant and version pair must be rejected by the real verifier exactly as by the model verifier, never accepted, never a panic.",
+  "text": "10 theorems: public-input length mismatch is rejected before anything else; changing any public input, label byte/length, bound key commitment, size or version flag changes the transcript operation list; version matrix of transcript/equation flags. Correspondence: every public-input mutation, near-miss circuit, label variant and version pair must be rejected by the real verifier exactly as by the model verifier, never accepted, never a panic.",
   "note": BASE_NOTE + "Different operation lists give unrelated challenges only under the random-oracle assumption; pairing in the trapdoor view.",
   "technique": TECH},
  "C05": {
-  "text": "The model's proveOutcome (every row identity on the padded domain with cyclic next-row wires, copy classes of the compiled layout, size check) is compared with the real Prover::prove + verify on raw rows of every widget family (satisfying / violating exactly one component), mixed selectors, a selected last row of a full domain, re-wired instances (copy constraints), and the specification prover reproduces the real quotient computation (len > 7n rule) byte for byte (C01/C06). Theorems: row semantics bridge (RowBridge), per-widget component characterisations (C08-C14 files).",
-  "note": BASE_NOTE + "Prover success == all identities hold is exact outside explicit bad-challenge sets (random-oracle assumption). The divisibility <-> vanishing theorem over the model's quotient routine is exercised executably, its general proof is pending (see DESIGN status).",
+  "text": "The model's proveOutcome (every row identity on the padded domain with cyclic next-row wires, copy classes of the compiled layout, size check) is compared with the real Prover::prove + verify on raw rows of every widget family (satisfying / violating exactly one component), mixed selectors, a selected last row of a full domain, re-wired instances (copy constraints), and the specification prover reproduces the real quotient computation (len > 7n rule) byte for byte (C01/C06). 31 theorems: divisibility of the quotient numerator <=> every identity vanishes on the domain (model quotient routine, coset division exact), blinding invisible on the domain, components from the challenge-weighted sum outside an explicit bad set, len > 7n rule; permutation: sigma is a permutation whose cycles are the wire classes, respects-sigma <=> copyViolation = none, grand-product soundness (bad set <= (4n)^2) and completeness, order independence, relabelling invariance. Raw rows also include cancelling component pairs and independently chosen selectors.",
+  "note": BASE_NOTE + "Prover success == all identities hold is exact outside explicit bad-challenge sets (random-oracle assumption). The accumulator z is tied to the grand product at field level; the end-to-end statement for `prove` composes these theorems executably (byte-identical prover).",
   "technique": TECH},
  "C06": {
-  "text": "The specification prover draws exactly 14 scalars in the order a1 a2 b1 b2 c1 c2 d1 d2 z1 z2 z3 t1 t2 t3 and builds every opened polynomial as unmasked + blinder*(X^n-1) (blindPoly) / quotient shares re-randomised; the real prover's 1008 bytes must equal the model's for scripted RNG streams with single draws forced to 0, 1, r-1; fill_bytes call count 14; two independently randomised proofs share no commitment and no wire/permutation evaluation.",
+  "text": "13 theorems (mask form of every blinded polynomial and opening, 14 draws, dependence on the first 14 only, draw partition, commitments of a returned proof are commitments of blinded polynomials). The specification prover draws exactly 14 scalars in the order a1 a2 b1 b2 c1 c2 d1 d2 z1 z2 z3 t1 t2 t3 and builds every opened polynomial as unmasked + blinder*(X^n-1) (blindPoly) / quotient shares re-randomised; the real prover's 1008 bytes must equal the model's for scripted RNG streams with single draws forced to 0, 1, r-1; fill_bytes call count 14; two independently randomised proofs share no commitment and no wire/permutation evaluation.",
   "note": BASE_NOTE + "Statistical zero-knowledge itself (simulator) is not proved; the property as worded (mask shape, draw discipline) is decided by byte equality with the model whose structure is the mask form.",
   "technique": TECH},
  "C07": {
@@ -63,8 +63,8 @@ CLAIMS = {
   "note": BASE_NOTE + "Group order hypothesis not needed (associativity proved).",
   "technique": TECH},
  "C15": {
-  "text": "Model of decompress(compress(c)) (first-use witness relabelling, zero values, positional public inputs) equals the implementation's snapshot; both compilation routes give byte-identical prover and verifier or fail together for SRS degrees from too small to ample; max_constraints equals the model for every degree; malformed/oversized payloads (re-packed MessagePack/deflate, zip bombs) give an error with bounded peak allocation and no panic.",
-  "note": BASE_NOTE + "Partial: MessagePack/deflate are external and not modelled; relabelling-invariance of sigma is checked executably through byte-identical keys, its general theorem is pending.",
+  "text": "18 theorems (decompressCompress keeps gates and public-input rows, first-use relabelling injective, sigma invariant under relabelling hence equal keys in the model, maxConstraints arithmetic). Model of decompress(compress(c)) (first-use witness relabelling, zero values, positional public inputs) equals the implementation's snapshot; both compilation routes give byte-identical prover and verifier or fail together for SRS degrees from too small to ample; max_constraints equals the model for every degree; malformed/oversized payloads (re-packed MessagePack/deflate, zip bombs) give an error with bounded peak allocation and no panic.",
+  "note": BASE_NOTE + "Partial: MessagePack/deflate are external and not modelled; relabelling-invariance of sigma is proved for the model (relabel_sigma).",
   "technique": TECH},
  "C16": {
   "text": "Round trips: prover/verifier bytes -> decode -> identical bytes, identical proofs from the same RNG stream, identical verifier decisions (route flag on every C01 case incl. a circuit whose q_m interpolant loses its top coefficient: defect found and fixed); proof decoder canonical (accepted bytes re-encode to themselves; checked on every mutated proof); model codecs for proof / verifier key / opening key / verifier framing compared byte for byte.",
